@@ -138,6 +138,11 @@ const GN: [&str; 2] = ["ga", "gb"];
 const CN: [&str; 2] = ["ca", "cb"];
 
 fn handler_src(name: &str) -> String {
+    // the second name answers through an explicit append and sets a non-default TTL for its
+    // return values (what is restored must not depend on output options)
+    if name == HN[1] {
+        return format!("{{\n  return_options: {{ttl: \"ephemeral\"}}\n  run: {{|frame|\n    if $frame.topic == \"boom\" {{ error make {{msg: \"boom\"}} }}\n    if not ($frame.topic | str starts-with \"ping\") {{ return }}\n    \"{}\" | .append {}.out\n    null\n  }}\n}}", name, name);
+    }
     format!("{{\n  run: {{|frame|\n    if $frame.topic == \"boom\" {{ error make {{msg: \"boom\"}} }}\n    if not ($frame.topic | str starts-with \"ping\") {{ return }}\n    \"{}\"\n  }}\n}}", name)
 }
 
@@ -380,6 +385,8 @@ pub fn histories(thorough: bool) -> Vec<Vec<Ev>> {
         vec![HReg { name: 0, ctx: 0 }, HReg { name: 1, ctx: 0 }, HReg { name: 0, ctx: 0 }, HUnreg { name: 1, ctx: 0 }],
         vec![HReg { name: 0, ctx: 0 }, HReg { name: 0, ctx: 1 }, HBoom { ctx: 1 }, Ping { ctx: 0 }],
         vec![HReg { name: 0, ctx: 0 }, HUnreg { name: 0, ctx: 0 }, HReg { name: 1, ctx: 1 }],
+        vec![HReg { name: 1, ctx: 0 }, HReg { name: 1, ctx: 1 }, Ping { ctx: 0 }, HUnreg { name: 1, ctx: 1 }],
+        vec![HReg { name: 1, ctx: 0 }, HReg { name: 0, ctx: 0 }, HBoom { ctx: 0 }],
         vec![GSpawn { name: 0, ctx: 0 }],
         vec![GSpawn { name: 0, ctx: 0 }, GSpawn { name: 0, ctx: 1 }],
         vec![GSpawnBad { name: 0, ctx: 0 }, GSpawn { name: 0, ctx: 1 }, GSpawn { name: 1, ctx: 1 }],
@@ -397,7 +404,7 @@ pub fn histories(thorough: bool) -> Vec<Vec<Ev>> {
     if thorough {
         // every history of depth <= 3 over a reduced alphabet with the same name in both contexts
         let alpha = vec![
-            HReg { name: 0, ctx: 0 }, HReg { name: 0, ctx: 1 }, HUnreg { name: 0, ctx: 0 }, HBoom { ctx: 1 }, Ping { ctx: 0 },
+            HReg { name: 0, ctx: 0 }, HReg { name: 0, ctx: 1 }, HUnreg { name: 0, ctx: 0 }, HBoom { ctx: 1 }, Ping { ctx: 0 }, HReg { name: 1, ctx: 0 }, HUnreg { name: 1, ctx: 0 },
             GSpawn { name: 0, ctx: 0 }, GSpawn { name: 0, ctx: 1 }, GSpawnBad { name: 0, ctx: 1 }, GSpawnFinite { name: 1, ctx: 1 },
             CDef { name: 0, ctx: 0 }, CDef { name: 0, ctx: 1 }, CDefBad { name: 0, ctx: 0 }, CDefSame { name: 0, ctx: 0 }, CCall { name: 0, ctx: 0 },
         ];
